@@ -396,4 +396,54 @@ example : multiObsTraceC exLiveJoins2 exLiveOps2 =
 -- a join that is away must stay silent
 example : multiOkC 0 exLiveJoins exLiveOps [[[]], [[(0, 0)]], [[]], [[(0, 1)]], [[]], [[]], [[(1, 2)]]] = false := by decide
 
+/-! ### `clear()` on a live manager, then reuse -/
+
+/-- **`clear()` and reuse.** For every set of joins on one manager and every history of routed
+calls, `unregister_join` / `register_join` calls and `clear()` calls: every column of the model's
+observation matrix satisfies the single-join manager specification **life by life**, where
+`clear()` ends the current life of every join; after `clear()` every handler stays silent until its
+join is registered again, and a join registered again starts from the empty state (no stale
+routing entry, no pair twice). Hypothesis (`WFX`): ids unique per consumed stream within each life. -/
+theorem multi_manager_clear_meets_spec (js : List JoinDef) (xs : List XOp) (hwf : WFX 0 js xs) :
+    multiOkX 0 js xs (multiObsTraceX js xs) = true :=
+  multiOkX_multiTraceX (fun out => out.map idPair) rfl
+    (fun j ms h => routed_meets_spec (routeJ j.l j.r) j.P ms h) 0 js xs hwf
+
+/-- the same under the driver's input check (ids unique per consumed stream over the whole history) -/
+theorem multi_manager_clear_meets_spec_unique_ids (js : List JoinDef) (xs : List XOp)
+    (hwf : ∀ j ∈ js, WF (joinOps j (opsOfX xs))) :
+    multiOkX 0 js xs (multiObsTraceX js xs) = true :=
+  multi_manager_clear_meets_spec js xs (wfx_of_unique_ids 0 js xs hwf)
+
+/-- for the join with index `i`, `clear()` **is** `unregister_join(j<i>)`: same node state
+afterwards (none), same batch (nothing) — for every join index at once -/
+theorem clear_is_unregister_all (i : Nat) (j : JoinDef) (s : Option St) :
+    stepX i j s .clear = stepC i j s (.unreg i) := stepX_view i j s .clear
+
+/-- a history without `clear()` calls is treated exactly as before -/
+theorem multiObsTraceX_no_clear (js : List JoinDef) (cs : List COp) :
+    multiObsTraceX js (cs.map .ctl) = multiObsTraceC js cs := by
+  unfold multiObsTraceX multiObsTraceC
+  rw [multiTraceX_ctl]
+
+def exClearJoins : List JoinDef :=
+  [{ l := 0, r := 1, P := { W := 5, cond := fun _ _ => true } }, { l := 1, r := 2, P := { W := 5, cond := fun _ _ => true } }]
+def exClearOps : List XOp :=
+  [.ctl (.op (.ev 0 ⟨0, 1, some 0, 0⟩)), .ctl (.op (.ev 1 ⟨0, 1, some 0, 0⟩)), .clear, .ctl (.op (.ev 1 ⟨1, 1, some 0, 0⟩)),
+   .ctl (.reg 1), .ctl (.reg 0), .ctl (.op (.ev 0 ⟨1, 2, some 0, 0⟩)), .ctl (.op (.ev 1 ⟨2, 2, some 0, 0⟩)),
+   .ctl (.op (.ev 2 ⟨0, 2, some 0, 0⟩))]
+example : multiObsTraceX exClearJoins exClearOps =
+    [[[], []], [[(0, 0)], []], [[], []], [[], []], [[], []], [[], []], [[], []], [[(1, 2)], []], [[], [(2, 0)]]] := by decide
+example : multiOkX 0 exClearJoins exClearOps (multiObsTraceX exClearJoins exClearOps) = true := by decide
+example : WFX 0 exClearJoins exClearOps := by decide
+-- a pair delivered twice after clear + register (stale routing entry) is rejected
+example : multiOkX 0 exClearJoins exClearOps
+    [[[], []], [[(0, 0)], []], [[], []], [[], []], [[], []], [[], []], [[], []], [[(1, 2), (1, 2)]], [[], [(2, 0)]]] = false := by decide
+-- a join that keeps its buffers across clear (pairs with an event of the previous life) is rejected
+example : multiOkX 0 exClearJoins exClearOps
+    [[[], []], [[(0, 0)], []], [[], []], [[], []], [[], []], [[], []], [[], []], [[(0, 2), (1, 2)], []], [[], [(2, 0)]]] = false := by decide
+-- a cleared manager that still routes is rejected
+example : multiOkX 0 exClearJoins exClearOps
+    [[[], []], [[(0, 0)], []], [[], []], [[(0, 1)], []], [[], []], [[], []], [[], []], [[(1, 2)], []], [[], [(2, 0)]]] = false := by decide
+
 end C14
